@@ -166,3 +166,11 @@ def run(rep, tier):
             rep.undecided('R13', 'tokenEnumStr(%s)' % name, 'not concrete: %s' % e, pos(f_str.node))
             continue
         rep.add('R13', 'tokenEnumStr(%s)' % name, ok, pos(f_str.node) + ' hexasm::tokenEnumStr', detail, nontrivial=False)
+    # R14: the handlers that print the diagnostic cannot themselves fail
+    mainf = [f for f in idx.all_funcs() if f.name == 'main' and f.body is not None and not f.cls][0]
+
+    def bind(env, lex, func):
+        for d in walk(func.body):
+            if d.get('kind') == 'VarDecl' and 'Lexer' in qt(d):
+                env['locals'][d['id']] = lex
+    robust.rule_handlers(rep, 'R14', idx, 'hexasm', mainf, bind)
